@@ -324,6 +324,7 @@ struct World
         int64_t track = 0;             // target track id (0: none)
         std::set<std::string> fields;  // fields of the target allowed to change ("*": all)
         bool expect_unchanged = false; // whole observation must equal the previous one
+        bool raw = false;              // table-API call inside the C14 enumeration: no model / differential checks
         FaultSpec fault;
     };
     // the main mutating call of the most recent step
@@ -369,6 +370,7 @@ struct World
     };
     std::unique_ptr<TState, TStateDeleter> tstate;
     void table_check(const std::string& op, int64_t touched);
+    void table_sync_from_db();  // atomic profile: rebuild actor T's row/list model from the library itself
     void open_table_library();
     void close_table_library();
     bool reload_table_library();
